@@ -185,6 +185,124 @@ def _leaves(g, a: int, targets: set[int], exits=(1, 2)) -> bool:
     return False
 
 
+def _local_defs(fn: ast.AST) -> dict[str, ast.AST]:
+    """name -> definition, for the functions defined inside fn (closures) under a name that nothing else binds"""
+    found: dict[str, list] = {}
+    for n in walk_no_nested(fn):
+        if n is fn:
+            continue
+        if isinstance(n, (ast.FunctionDef, ast.AsyncFunctionDef, ast.ClassDef)):
+            found.setdefault(n.name, []).append(n)
+        elif isinstance(n, ast.Name) and not isinstance(n.ctx, ast.Load):
+            found.setdefault(n.id, []).append(None)
+    return {k: v[0] for k, v in found.items() if len(v) == 1 and isinstance(v[0], ast.FunctionDef)}
+
+
+def _plain_block(d: ast.FunctionDef) -> bool:
+    """the closure takes nothing, gives nothing back and binds no name: calling it as a statement is executing its statements in place"""
+    a = d.args
+    if a.posonlyargs or a.args or a.kwonlyargs or a.vararg or a.kwarg or d.decorator_list:
+        return False
+    for n in ast.walk(d):
+        if n is d:
+            continue
+        if isinstance(n, (ast.Return, ast.Yield, ast.YieldFrom, ast.Await, ast.Nonlocal, ast.Global, ast.FunctionDef, ast.AsyncFunctionDef, ast.ClassDef, ast.Lambda, ast.NamedExpr)):
+            return False
+        if isinstance(n, ast.Name) and not isinstance(n.ctx, ast.Load):
+            return False
+    return True
+
+
+def _with_closures_in_place(fn: ast.AST) -> ast.AST:
+    """fn itself, or a copy of it in which every statement `g()` that calls a closure of fn (no parameter, no result, no binding) is replaced by the
+    statements of g: `def g(): <restore>` before a `try` and `g()` in its `finally` is the restore written in the `finally`"""
+    from ..core import fast_copy
+
+    blocks = {k: d for k, d in _local_defs(fn).items() if _plain_block(d)}
+    if not blocks:
+        return fn
+
+    def is_call(st: ast.stmt) -> str | None:
+        if isinstance(st, ast.Expr) and isinstance(st.value, ast.Call) and isinstance(st.value.func, ast.Name) and st.value.func.id in blocks and not st.value.args and not st.value.keywords:
+            return st.value.func.id
+        return None
+
+    if not any(is_call(n) for n in walk_no_nested(fn) if isinstance(n, ast.stmt)):
+        return fn
+    new = fast_copy(fn)
+    new.__dict__.pop('_verif_cfg', None)
+
+    def rewrite(body: list[ast.stmt], depth: int) -> list[ast.stmt]:
+        out = []
+        for st in body:
+            g = is_call(st)
+            if g is not None and depth < 4:
+                out.extend(rewrite(fast_copy(strip_body(blocks[g])), depth + 1))
+                continue
+            if not isinstance(st, (ast.FunctionDef, ast.AsyncFunctionDef, ast.ClassDef)):
+                for fld in ('body', 'orelse', 'finalbody'):
+                    b = getattr(st, fld, None)
+                    if isinstance(b, list) and b and isinstance(b[0], ast.stmt):
+                        setattr(st, fld, rewrite(b, depth) or [ast.copy_location(ast.Pass(), st)])
+                for h in getattr(st, 'handlers', []) or []:
+                    h.body = rewrite(h.body, depth) or [ast.copy_location(ast.Pass(), h)]
+                for cs in getattr(st, 'cases', []) or []:
+                    cs.body = rewrite(cs.body, depth) or [ast.copy_location(ast.Pass(), cs)]
+            out.append(st)
+        return out
+
+    def strip_body(d: ast.FunctionDef) -> list[ast.stmt]:
+        b = d.body
+        if b and isinstance(b[0], ast.Expr) and isinstance(b[0].value, ast.Constant) and isinstance(b[0].value.value, str):
+            b = b[1:]
+        return b or [ast.copy_location(ast.Pass(), d)]
+
+    new.body = rewrite(new.body, 0)
+    return new
+
+
+def _choose(tests: 'Flow', e: ast.expr, facts: dict) -> ast.expr:
+    """e (locals resolved) in which a conditional expression whose test is decided by what holds where it is used is the arm that is taken"""
+
+    class Pick(ast.NodeTransformer):
+        def visit_IfExp(self, node):
+            v = tests.value(tests.norm(node.test, True), facts)
+            if v is None:
+                return self.generic_visit(node)
+            return self.visit(node.body if v else node.orelse)
+
+    return Pick().visit(e)
+
+
+def _handed_value(tests: 'Flow', fn: ast.AST, c: ast.Call) -> ast.expr | None:
+    """what the call hands over, locals resolved.  Of `a if t else b` the arm that the tests around the call select; of a local assigned in the two arms of
+    a test (`if t: x = a` / `else: x = b`) the one assignment that reaches the call on the paths where the tests around the call keep their value"""
+    import networkx as nx
+
+    a = _handed(c)
+    if a is None:
+        return None
+    facts = tests.guards(c)
+    r = inline_locals(fn, a)
+    if isinstance(r, ast.Name) and r.id not in tests.fixed:
+        binds = [n for n in walk_no_nested(fn) if isinstance(n, ast.Name) and n.id == r.id and not isinstance(n.ctx, ast.Load)]
+        defs = [tests.parent.get(id(n)) for n in binds]
+        if defs and all(isinstance(d, ast.Assign) and len(d.targets) == 1 and d.targets[0] is n for d, n in zip(defs, binds)) and len(defs) <= 6:
+            g, _ = tests.under(facts)
+            uses = [u for u in tests.at(c) if u in g]
+            alive = (nx.descendants(g, 0) | {0}) if 0 in g else set()
+            nodes = {id(d): [x for x in tests.nodes_of.get(id(d), []) if x in alive] for d in defs}
+            live = []
+            for d in defs:
+                h = g.copy()
+                h.remove_nodes_from([x for o in defs if o is not d for x in tests.nodes_of.get(id(o), [])])
+                if any(x in h and u in h and nx.has_path(h, x, u) for x in nodes[id(d)] for u in uses):
+                    live.append(d)
+            if len(live) == 1:
+                r = inline_locals(fn, live[0].value)
+    return _choose(tests, r, facts)
+
+
 def restore_rule(ctx: Ctx, rule: str) -> None:
     """every hand-over of a resample to the engine is followed, on all exits, by a hand-over of the full data"""
     prog = ctx.prog
@@ -197,11 +315,14 @@ def restore_rule(ctx: Ctx, rule: str) -> None:
     for f in B.methods.values():
         if getattr(f.node, '_verif_transparent', False):
             continue  # a new helper all of whose calls were expanded in place: examined where it is called
-        calls = [(c, _engine_call(f.node, c)) for c in walk_no_nested(f.node)]
+        fnode = _with_closures_in_place(f.node)  # (a closure called as a statement is its statements)
+        calls = [(c, _engine_call(fnode, c)) for c in walk_no_nested(fnode)]
         calls = [(c, k) for c, k in calls if k]
         if not calls:
             continue
-        args = {id(c): (inline_locals(f.node, _handed(c)) if _handed(c) is not None else None) for c, _ in calls}
+        tests = Flow(fnode, panel_is_column)
+        # (what is handed over, locals resolved; of `a if t else b` the arm that the tests around the call select)
+        args = {id(c): _handed_value(tests, fnode, c) for c, _ in calls}
         text = {id(c): (unparse(args[id(c)]) if args[id(c)] is not None else '?') for c, _ in calls}
         resample = [(c, k) for c, k in calls if text[id(c)] != _FULL[k]]
         if getattr(f.node, '_verif_new_helper', False):
@@ -214,11 +335,21 @@ def restore_rule(ctx: Ctx, rule: str) -> None:
             continue
         if not resample:
             continue
-        tests = Flow(f.node, panel_is_column)
         # something else than a direct call on the engine may hand the data over: the engine object or the instance given away, a method that
-        # is new or that hands data over itself
+        # is new or that hands data over itself, a closure or a lambda of this function that does one of these (its statements run where it is
+        # called, which the rule does not follow unless the call is a plain statement, replaced above by the statements)
         elsewhere = []
-        for x in walk_no_nested(f.node):
+        inner_names = {u.id for u in walk_no_nested(fnode) if isinstance(u, ast.Name) and isinstance(u.ctx, ast.Load)}
+        for x in walk_no_nested(fnode):
+            if x is not fnode and isinstance(x, (ast.FunctionDef, ast.AsyncFunctionDef, ast.Lambda, ast.ClassDef)):
+                if isinstance(x, ast.Lambda) or x.name in inner_names:
+                    reach = [y for y in ast.walk(x) if (isinstance(y, ast.Attribute) and unparse(y) == 'self.theC')
+                             or (isinstance(y, ast.Call) and isinstance(y.func, ast.Attribute) and unparse(y.func.value) == 'self' and y.func.attr != f.name
+                                 and (B.resolve(y.func.attr) is None or getattr(B.resolve(y.func.attr).node, '_verif_new_helper', False) or y.func.attr in hands_over))
+                             or (isinstance(y, ast.Call) and any(isinstance(a_, ast.Name) and a_.id == 'self' for a_ in list(y.args) + [kw.value for kw in y.keywords]))]
+                    if reach:
+                        elsewhere.append(f'{"a lambda" if isinstance(x, ast.Lambda) else "the local function " + x.name + "()"} (line {x.lineno}) can talk to the engine where it is called')
+                continue
             if isinstance(x, ast.Attribute) and isinstance(x.ctx, ast.Load) and unparse(x) == 'self.theC':
                 p = tests.parent.get(id(x))
                 pp = tests.parent.get(id(p)) if p is not None else None
@@ -226,7 +357,7 @@ def restore_rule(ctx: Ctx, rule: str) -> None:
                 alias = isinstance(p, ast.Assign) and p.value is x and len(p.targets) == 1 and isinstance(p.targets[0], ast.Name)
                 if alias:
                     nm = p.targets[0].id
-                    uses = [u for u in walk_no_nested(f.node) if isinstance(u, ast.Name) and u.id == nm and u is not p.targets[0]]
+                    uses = [u for u in walk_no_nested(fnode) if isinstance(u, ast.Name) and u.id == nm and u is not p.targets[0]]
                     alias = all(isinstance(u.ctx, ast.Load) and isinstance(tests.parent.get(id(u)), ast.Attribute) and isinstance(tests.parent.get(id(tests.parent.get(id(u)))), ast.Call)
                                 and tests.parent.get(id(tests.parent.get(id(u)))).func is tests.parent.get(id(u)) for u in uses)
                 if not (direct or alias):
@@ -288,7 +419,7 @@ def _roles(ctx: Ctx) -> None:
     for a in walk_no_nested(init.node):
         if isinstance(a, ast.Assign) and unparse(a.targets[0]) in ('self.log_like_valid_names', 'self.weight_valid_names'):
             try:
-                lists[unparse(a.targets[0])] = [const_value(e) for e in a.value.elts]
+                lists[unparse(a.targets[0])] = [const_value(e) for e in inline_locals(init.node, a.value).elts]  # (the list may be written out in a local first)
             except Exception:
                 lists[unparse(a.targets[0])] = None
     ll, ww = lists.get('self.log_like_valid_names'), lists.get('self.weight_valid_names')
@@ -303,8 +434,19 @@ def _roles(ctx: Ctx) -> None:
             # (a list of names kept in a local is that list)
             det = {k: unparse(inline_locals(init.node, v)) for k, v in bound.items()}
             okc = det == {'dict_of_formulas': 'formulas', 'valid_keywords': names}
+            # (the list stored in the attribute and handed over through the local it was stored from is that list: one object)
+            stored = [a_ for a_ in walk_no_nested(init.node) if isinstance(a_, (ast.Assign, ast.AnnAssign)) and getattr(a_, 'value', None) is not None
+                      and any(unparse(t_) == names for t_ in (a_.targets if isinstance(a_, ast.Assign) else [a_.target]))]
+            kw = bound.get('valid_keywords')
+            same_object = (len(stored) == 1 and isinstance(stored[0].value, ast.Name) and isinstance(kw, ast.Name) and kw.id == stored[0].value.id
+                           and sum(1 for x_ in walk_no_nested(init.node) if isinstance(x_, ast.Name) and x_.id == kw.id and not isinstance(x_.ctx, ast.Load)) == 1)
+            if not okc and same_object and det.get('dict_of_formulas') == 'formulas' and set(det) == {'dict_of_formulas', 'valid_keywords'}:
+                okc = True
         wrong = None
-        if not okc and len(calls) == 1 and isinstance(det, dict) and det.get('dict_of_formulas') == 'formulas' and 'valid_keywords' in det and names not in det['valid_keywords']:
+        # (what the attribute holds, written out: handing over the same list under another spelling is not handing over another list)
+        held = {unparse(inline_locals(init.node, a_.value)) for a_ in walk_no_nested(init.node) if isinstance(a_, (ast.Assign, ast.AnnAssign)) and getattr(a_, 'value', None) is not None
+                and any(unparse(t_) == names for t_ in (a_.targets if isinstance(a_, ast.Assign) else [a_.target]))}
+        if not okc and len(calls) == 1 and isinstance(det, dict) and det.get('dict_of_formulas') == 'formulas' and 'valid_keywords' in det and names not in det['valid_keywords'] and det['valid_keywords'] not in held:
             # the keywords handed over are not made from the list of documented spellings at all
             wrong = f'{attr} is looked up under {det["valid_keywords"]} only, not under all of {names}: a formula given under another documented spelling is ignored'
         elif not calls:
